@@ -36,6 +36,7 @@ class SimGateway:
         self.script = script or {}
         self.ord: Counter[str] = Counter()
         self.channels: dict[int, Channel] = {}
+        self.on_connected = None     # optional hook(cid), called when a ConnectRequest was accepted
         self.next_cid = int(self.script.get("first_channel", 1))
         self.sock = net.udp_bind(ip, port, self._on_udp)
         if tcp:
@@ -177,6 +178,8 @@ class SimGateway:
         resp = W.connect_response(cid, 0, W.hpai(self.ip, self.port, tcp=via[0] == "tcp"),
                                   ind_addr=self.ind_addr, mgmt=mgmt)
         self._reply(via, resp, lat=b.get("lat"), to=ctrl)
+        if self.on_connected is not None:
+            self.on_connected(cid)      # e.g. bus traffic forwarded right behind the ConnectResponse
         if k == "dup":
             self._later(b.get("d", 0.2), lambda: self._reply(via, resp, to=ctrl))
         elif k == "ok+disconnect":
